@@ -48,6 +48,36 @@ Run(const std::string &sc)
     a.join(); b.join();
     return 0;
   }
+  if (sc == "twoS_then_X") {
+    // two shared holders overlap; the one that leaves FIRST (not the last holder) read the payload; the writer comes
+    // after both left: the first reader's section must still happen-before the write.  The threads are sequenced by
+    // relaxed flags only (no join before the write), so the harness adds no happens-before edge of its own.
+    std::thread a([&] {
+      {
+        auto g = lock.LockS();
+        sink = payload;
+        SetStage(1);
+        WaitStage(2);  // C holds S as well
+      }                // A leaves first, while C still holds S
+      SetStage(3);
+    });
+    std::thread c([&] {
+      WaitStage(1);
+      {
+        auto g = lock.LockS();
+        SetStage(2);
+        WaitStage(3);
+      }
+      SetStage(4);
+    });
+    std::thread b([&] {
+      WaitStage(4);
+      auto g = lock.LockX();
+      payload = 7;
+    });
+    a.join(); c.join(); b.join();
+    return 0;
+  }
   if (sc == "S_then_upgrade") {
     // B holds SIX; A reads under S and leaves; B upgrades (must acquire A's section) and writes
     std::thread b([&] {
